@@ -223,6 +223,23 @@ def run(ctx: Ctx, tier: str) -> Result:
                 if rets and all(r.value is not None and norm(r.value) == gi.params[2] for r in rets) and conv and \
                         any(paths.within(p, conv[0], b) for b in tr.body):
                     ok = True
+    # a limit that is given is used as given: 0 is a value (fire_count 0 = never, fire_period 0 = no spacing), so the default
+    # stands in only for an absent key - not for a falsy value (`value or default`, `if not value`)
+    if len(tries) == 1:
+        for c_ in [c for c in ast.walk(tries[0]) if isinstance(c, ast.Call) and "builtins.int" in t.resolve_call(c, gi).ext]:
+            arg_ = c_.args[0] if c_.args else None
+            exprs_ = [arg_]
+            if isinstance(arg_, ast.Name):
+                exprs_ = [b[1] for k_, b in t.local_bindings(gi, arg_.id) if isinstance(b, tuple) and b[1] is not None]
+            for e_ in exprs_:
+                subst = [n for n in ast.walk(e_) if isinstance(n, ast.BoolOp) and isinstance(n.op, ast.Or)] if e_ is not None else []
+                subst += [n for n in ast.walk(e_) if isinstance(n, ast.IfExp) and not any(isinstance(x, ast.Compare) and isinstance(x.ops[0], (ast.Is, ast.IsNot, ast.In, ast.NotIn))
+                                                                                         for x in ast.walk(n.test))] if e_ is not None else []
+                if subst:
+                    res.fail(Finding("C04.INT", gi.qname, subst[0], gi.loc(subst[0]), "`%s` replaces every falsy value by the default, not only an absent one: a limit "
+                                     "given as the number 0 (fire_count 0: never collect; fire_period 0: no spacing) is read as the default" % norm(subst[0])[:60]))
+                else:
+                    res.ok("C04.INT", {"the default stands in for an absent key only": norm(e_)[:60] if e_ is not None else ""})
     # the parsed value depends on the text and on the default of the limit that is read, on nothing remembered from other reads
     impure = [n for n in t.nodes_in(gi, ast.Name) if isinstance(n.ctx, ast.Load) and n.id in gi.module.consts
               and isinstance(gi.module.consts[n.id], (ast.Dict, ast.List, ast.Set, ast.Call))]
